@@ -31,7 +31,7 @@ type Unknown struct {
 
 // Op is one script step; all arguments are explicit so a script replays without rapid.
 type Op struct {
-	Kind string `json:"kind"` // open write commit close read unknown
+	Kind string `json:"kind"` // open write commit close read unknown intrude
 	W    int    `json:"w,omitempty"`
 	// Via is the gateway node (1..N) through which a writer/iterator is opened; for commit
 	// it is the node through which the post-commit visibility read is issued.
@@ -55,6 +55,12 @@ type Op struct {
 	// read
 	A int64 `json:"a,omitempty"`
 	B int64 `json:"b,omitempty"`
+	// open: control authorities (empty = the default, absolute; one = shared by all channels;
+	// otherwise one per channel, in the order of Channels). intrude: the single authority of a
+	// second writer opened on Channels (a subset of writer W's channels) while W is open; it
+	// is lower than every authority of W, so W keeps control and nothing the intruder writes
+	// may be stored.
+	Auth []int `json:"auth,omitempty"`
 	// unknown
 	Target  string    `json:"target,omitempty"` // writer | iterator
 	Unknown []Unknown `json:"unknown,omitempty"`
@@ -93,6 +99,7 @@ type WState struct {
 	Bound      int64
 	AutoCommit bool
 	Sync       bool
+	MinAuth    int // lowest control authority the writer holds on any of its channels
 	PendTS     []int64
 	PendVals   map[uint32][][]byte
 	// PendTSk holds, per leased channel, the timestamps of its uncommitted samples; a write
@@ -205,6 +212,12 @@ func (s *State) ApplyOpen(op Op) *WState {
 			if t >= op.Start && t < end && t < w.Bound {
 				w.Avail = append(w.Avail, t)
 			}
+		}
+	}
+	w.MinAuth = 255
+	for _, a := range op.Auth {
+		if a < w.MinAuth {
+			w.MinAuth = a
 		}
 	}
 	s.Writers[op.W] = w
@@ -427,6 +440,9 @@ func genScript(t *rapid.T) Script {
 			choices = append(choices, "write", "write", "write", "commit", "commit", "close", "close")
 		}
 		choices = append(choices, "read")
+		if len(st.Writers) > 0 {
+			choices = append(choices, "intrude")
+		}
 		if rapid.IntRange(0, 3).Draw(t, "allow-unknown") == 0 {
 			choices = append(choices, "unknown")
 		}
@@ -446,6 +462,14 @@ func genScript(t *rapid.T) Script {
 		switch kind {
 		case "open":
 			if op, ok := genOpen(t, st, indexes, frees, n); ok {
+				switch rapid.IntRange(0, 3).Draw(t, "authorities") {
+				case 0: // one authority per channel
+					for range op.Channels {
+						op.Auth = append(op.Auth, rapid.IntRange(2, 255).Draw(t, "auth"))
+					}
+				case 1:
+					op.Auth = []int{rapid.IntRange(2, 255).Draw(t, "auth-shared")}
+				}
 				st.ApplyOpen(op)
 				sc.Ops = append(sc.Ops, op)
 			}
@@ -517,6 +541,27 @@ func genScript(t *rapid.T) Script {
 			id := pickWriter(t, st)
 			st.ApplyCommit(id)
 			sc.Ops = append(sc.Ops, Op{Kind: "commit", W: id, Via: via("commit-via")})
+		case "intrude":
+			w := st.Writers[pickWriter(t, st)]
+			op := Op{Kind: "intrude", W: w.ID, Via: via("intrude-via"), Auth: []int{rapid.IntRange(1, w.MinAuth-1).Draw(t, "intruder-auth")},
+				Seed: uint64(rapid.IntRange(0, 1<<30).Draw(t, "seed"))}
+			switch rapid.IntRange(0, 2).Draw(t, "intrude-on") {
+			case 0: // everything the writer has
+				op.Channels = append([]uint32{}, w.Channels...)
+			case 1: // a single channel
+				op.Channels = []uint32{rapid.SampledFrom(w.Channels).Draw(t, "intrude-chan")}
+			default: // one index group of the writer (or one free channel)
+				pick := rapid.SampledFrom(w.Channels).Draw(t, "intrude-group")
+				for _, id := range w.Channels {
+					if id == pick || (st.Chans[id].Lease != 0 && st.Chans[pick].Lease != 0 && st.group(id) == st.group(pick)) {
+						op.Channels = append(op.Channels, id)
+					}
+				}
+			}
+			for i, k := 0, rapid.IntRange(1, 3).Draw(t, "intrude-k"); i < k; i++ {
+				op.TS = append(op.TS, w.Last+1+int64(i))
+			}
+			sc.Ops = append(sc.Ops, op)
 		case "close":
 			id := pickWriter(t, st)
 			st.ApplyClose(id)
@@ -539,6 +584,7 @@ func genScript(t *rapid.T) Script {
 			if len(op.Channels) == 0 {
 				op.Channels = []uint32{rapid.SampledFrom(leased).Draw(t, "rsel-one")}
 			}
+			op.Channels = genRepeats(t, op.Channels)
 			sc.Ops = append(sc.Ops, op)
 		case "unknown":
 			op := Op{Kind: "unknown", Via: via("unk-via"), Target: rapid.SampledFrom([]string{"writer", "iterator"}).Draw(t, "target")}
@@ -579,11 +625,27 @@ func genScript(t *rapid.T) Script {
 			}
 		}
 		if len(op.Channels) == 0 {
-			op.Channels = leased
+			op.Channels = append([]uint32{}, leased...)
 		}
+		op.Channels = genRepeats(t, op.Channels)
 		sc.Ops = append(sc.Ops, op)
 	}
 	return sc
+}
+
+// genRepeats names some of an iterator's channels more than once (a key list assembled from
+// several sources): the iterator must still return every channel's samples exactly once.
+func genRepeats(t *rapid.T, ids []uint32) []uint32 {
+	if rapid.IntRange(0, 3).Draw(t, "repeat-keys") != 0 {
+		return ids
+	}
+	out := append([]uint32{}, ids...)
+	for i, n := 0, rapid.IntRange(1, 2).Draw(t, "nrepeat"); i < n; i++ {
+		k := rapid.SampledFrom(ids).Draw(t, "repeat")
+		pos := rapid.IntRange(0, len(out)).Draw(t, "repeat-pos")
+		out = append(out[:pos], append([]uint32{k}, out[pos:]...)...)
+	}
+	return out
 }
 
 func genOpen(t *rapid.T, st *State, indexes, frees []uint32, n int) (Op, bool) {
